@@ -57,10 +57,19 @@ def run(ctx):
             if not ev2["ok"]:
                 broken.append("model evaluation failed: " + ev2["log"][-1500:])
             mech_bad = [ev["bad"][j] for j in ev2["bad"]]
+            ev3 = vf.coq_eval_cases(ctx, pid, RUNNER["imports"], RUNNER["case_type"], "c01_hyp_mismatches", [c["coq"] for c in sub], shard=RUNNER["shard"], tag="h")
+            if not ev3["ok"]:
+                broken.append("model evaluation failed: " + ev3["log"][-1500:])
+            hyp_bad = [ev["bad"][j] for j in ev3["bad"]]
             for i in ev["bad"]:
                 c = cases[i]
                 smp = c.get("sample") or {}
-                if i in mech_bad:
+                if i in hyp_bad:
+                    broken.append("hypothesis re_okb of C01_search_exact_partial is violated on case %s: the regexp engine matches a text on which the distilled literal tree does not hold (or the engine's verdict on \\bLIT\\b differs from the reference semantics)" % json.dumps(smp, default=str)[:1500])
+                    if smp.get("case") not in failed_cases:
+                        failures.append(dict(key="prefilter-obligation:" + ",".join(sorted(x for x in c.get("class", []) if "=" not in x)),
+                                             what="regexp prefilter obligation violated", replay=smp))
+                elif i in mech_bad:
                     broken.append("correspondence c01_verdict=1: the model's search mechanism and indexData.Search disagree on case %s" % json.dumps(smp, default=str)[:1500])
                 elif smp.get("case") not in failed_cases:
                     # the faithful mechanism model reproduces the implementation, and both differ from the specification
